@@ -457,6 +457,11 @@ template <bool UND> struct MgSlot : SlotBase {
         ne = (g != p->g);
         return true;
     }
+    // the searches see a multigraph through its public asLabeledGraph() view (multiplicities ignored)
+    bool algo(const std::string &verb, const Args &a, std::string &out, std::string &echo) override {
+        if (verb == "dijkstra") return false;
+        return runAlgo(g.asLabeledGraph(), verb, a, out, echo);
+    }
 };
 
 template <bool UND> struct WgSlot : SlotBase {
@@ -559,7 +564,9 @@ template <bool UND> struct WgSlot : SlotBase {
         return true;
     }
     bool algo(const std::string &verb, const Args &a, std::string &out, std::string &echo) override {
-        return runDijkstra(g, verb, a, out, echo);
+        if (verb == "dijkstra") return runDijkstra(g, verb, a, out, echo);
+        // the hop-count searches see a weighted graph through its public asLabeledGraph() view
+        return runAlgo(g.asLabeledGraph(), verb, a, out, echo);
     }
 };
 
